@@ -131,6 +131,11 @@ namespace ss
                     m.fail("shared_stack", std::string(via) + ": task " + std::to_string(t)
                                                + " was handed the temporary stack that live task "
                                                + std::to_string(kv.first) + " is using");
+            stats().hit(m.seen.count(p) ? (m.freed.count(p) ? "reach.stack_of_finished_user_adopted" :
+                                                              "reach.stack_handed_again") :
+                                          "reach.stack_created");
+            if (!alone)
+                stats().hit("reach.acquiring_calls_overlapped");
             if (!m.seen.count(p))
             {
                 // a brand new stack although one was free during the whole call?
@@ -379,6 +384,7 @@ namespace ss
         [[noreturn]] void child(const Plan& plan, int fd)
         {
             g_report_fd = fd;
+            stats().c.clear(); // from here on: this child's own probes, sent to the parent with the result
             g_static_user_enabled = plan.num("exit_user", 0) != 0;
             fm::set_leak_handler(
                 [](const fm::allocator_info&, std::ptrdiff_t amount)
@@ -419,6 +425,8 @@ namespace ss
             else
                 report("RES OK %016llx %u %u %d\n", (unsigned long long)hash.h, sched.steps, sched.preemptions,
                        heap.fault_fired() ? 1 : 0);
+            for (auto& kv : stats().c)
+                report("ST %s %llu\n", kv.first.c_str(), (unsigned long long)kv.second);
             // leave the way a program does: thread-local destructors of main, then static destructors
             std::exit(0);
         }
@@ -471,6 +479,15 @@ namespace ss
         };
         auto resl = line_of("RES ");
         auto exl  = line_of("EXIT ");
+        for (std::size_t pos = 0; (pos = out.find("ST ", pos)) != std::string::npos; ++pos)
+        {
+            if (pos && out[pos - 1] != '\n')
+                continue;
+            char               name[120];
+            unsigned long long n = 0;
+            if (std::sscanf(out.c_str() + pos, "ST %119s %llu", name, &n) == 2)
+                stats().hit(name, n);
+        }
         if (resl.compare(0, 6, "RES V ") == 0)
         {
             auto rest = resl.substr(6);
